@@ -51,19 +51,19 @@ Definition thr_of (t : option (bool * Z * Q)) : option Q :=
   end.
 (* final output: impl (in node-table order) = spec comp_labels, and (when `full`) = the model;
    `iters` = number of passes of the while loop the implementation made, when observed *)
-Definition FC := (list Z * list (Z * Z * Q) * option (bool * Z * Q) * list (Z * Z) * bool * option nat)%type.
+Definition FC := (list Z * list (Z * Z * option Q) * option (bool * Z * Q) * list (Z * Z) * bool * option nat)%type.
 Definition run_case (c : FC) : bool :=
   match c with (nodes, edges, t, impl, full, iters) =>
     let thr := thr_of t in
-    list_eqb impl (comp_labels nodes (thr_edges thr edges))
-    && (if full then match cluster_at_threshold nodes edges thr with
+    list_eqb impl (comp_labels nodes (thr_edges_n thr edges))
+    && (if full then match cluster_at_threshold_n nodes edges thr with
                      | Some out => same_set zz_eqb out impl
                      | None => false
                      end
         else true)
     && match iters with
        | None => true
-       | Some k => let '(r0, nb) := cc_init nodes (thr_edges thr edges) in
+       | Some k => let '(r0, nb) := cc_init nodes (thr_edges_n thr edges) in
                    Nat.eqb (length (cc_trace (cc_fuel nodes) r0 nb)) k
        end
   end.
@@ -78,11 +78,11 @@ Fixpoint iters_eqb (ms : list cc_iter) (es : list (list rrow * list (Z * Z) * li
   | m :: ms', e :: es' => iter_eqb m e && iters_eqb ms' es'
   | _, _ => false
   end.
-Definition TC := (list Z * list (Z * Z * Q) * option (bool * Z * Q) *
+Definition TC := (list Z * list (Z * Z * option Q) * option (bool * Z * Q) *
                   (list (Z * Z) * list rrow * list (list rrow * list (Z * Z) * list rrow)))%type.
 Definition run_trace (c : TC) : bool :=
   match c with (nodes, edges, t, (nb0, r0, its)) =>
-    let E := thr_edges (thr_of t) edges in
+    let E := thr_edges_n (thr_of t) edges in
     let '(mr0, mnb) := cc_init nodes E in
     same_set zz_eqb mnb nb0 && same_set row_eqb mr0 r0
     && iters_eqb (cc_trace (cc_fuel nodes) mr0 mnb) its
@@ -115,13 +115,32 @@ def rank_map(case):
     return {k: i for i, k in enumerate(order)}
 
 
-def pfrac(k) -> Fraction:
-    """Exact value of an edge probability: int k means k/1024, a float means that double."""
+def pfrac(k):
+    """Exact value of an edge probability: int k means k/1024, a float means that double, None = NULL."""
+    if k is None:
+        return None
     return Fraction(k, 1024) if isinstance(k, int) else Fraction(float(k))
 
 
-def pfloat(k) -> float:
+def pfloat(k):
+    if k is None:
+        return None
     return k / 1024 if isinstance(k, int) else float(k)
+
+
+def prob_series(ks):
+    """match_probability column; NULLs need the nullable dtype (a float64 NaN is not a NULL everywhere)."""
+    vals = [pfloat(k) for k in ks]
+    if any(v is None for v in vals):
+        return pd.Series([pd.NA if v is None else v for v in vals], dtype="Float64")
+    return pd.Series(vals, dtype="float64")
+
+
+def qualifies(k, t) -> bool:
+    """Does an edge with probability k pass threshold t (None = no threshold)?  NULL passes only then."""
+    if t is None:
+        return True
+    return k is not None and pfrac(k) >= t
 
 
 _EFF: dict = {}
@@ -203,7 +222,7 @@ def oracle(case):
 
     t = thr_fraction(case["thr"], case["backend"])
     for l, r, k in case["edges"]:
-        if t is None or pfrac(k) >= t:
+        if qualifies(k, t):
             a, b = find(rk[key_of(l)]), find(rk[key_of(r)])
             if a != b:
                 parent[max(a, b)] = min(a, b)
@@ -327,7 +346,7 @@ def _run_impl(case, api, cap):
         edges = pd.DataFrame({
             "uid_l": _col([key_of(e[0]) for e in case["edges"]], kind),
             "uid_r": _col([key_of(e[1]) for e in case["edges"]], kind),
-            "match_probability": pd.Series([pfloat(e[2]) for e in case["edges"]], dtype="float64"),
+            "match_probability": prob_series([e[2] for e in case["edges"]]),
         })
         cc = cpt(nodes, edges, api, "uid", **kw)
         rows = [(r["uid"], r["cluster_id"]) for r in cc.as_record_dict()]
@@ -369,7 +388,7 @@ def _run_impl(case, api, cap):
         })
         aliases = None
     if not case.get("no_prob_col"):
-        pred["match_probability"] = pd.Series([pfloat(e[2]) for e in case["edges"]], dtype="float64")
+        pred["match_probability"] = prob_series([e[2] for e in case["edges"]])
         pred["match_weight"] = pd.Series([0.0] * len(case["edges"]), dtype="float64")
     lk = su.linker(tables, settings, backend, aliases=aliases, api=api)
     dfp = lk.table_management.register_table_predict(pred, overwrite=True)
@@ -449,8 +468,8 @@ def _row(r):
 def coq_inputs(case):
     rk = rank_map(case)
     nodes = coq_list([coq_Z(rk[key_of(x)]) for x in case["nodes"]], "Z")
-    edges = coq_list([f"({coq_Z(rk[key_of(l)])}, {coq_Z(rk[key_of(r)])}, {coq_Q(pfrac(k))})"
-                      for l, r, k in case["edges"]], "(Z * Z * Q)")
+    edges = coq_list([f"({coq_Z(rk[key_of(l)])}, {coq_Z(rk[key_of(r)])}, {coq_opt(pfrac(k), coq_Q)})"
+                      for l, r, k in case["edges"]], "(Z * Z * option Q)")
     thr = case["thr"]
     if thr is None:
         t = "None"
@@ -662,6 +681,23 @@ def build_nd_case(rng, fam, n, entry, backend, idkind, link_type=None):
     return c
 
 
+def build_null_case(rng, fam, n, entry, backend, idkind, link_type=None):
+    """Some edge rows carry a NULL match_probability (bridging ones included); thresholds emphasise 0:
+    a NULL never passes a threshold, also not threshold 0, and passes when no threshold is given."""
+    thr = rng.choice([["p", 0], ["p", 0], ["p", 0], None, ["p", 512], ["w", -3], ["p", 768]])
+    c = build_case(rng, fam, n, entry, backend, idkind, link_type, thr=thr, cut_rate=0.3, noise=True)
+    c.pop("no_prob_col", None)
+    hit = False
+    for e in c["edges"]:
+        if rng.random() < 0.35:
+            e[2] = None
+            hit = True
+    if c["edges"] and not hit:
+        rng.choice(c["edges"])[2] = None
+    c["family"] = "null_" + fam
+    return c
+
+
 def labelled_graphs(n):
     pairs = list(itertools.combinations(range(n), 2))
     for mask in range(1 << len(pairs)):
@@ -774,5 +810,7 @@ def shrink(case, budget=150):
 def features_of(case):
     return {"entry": case["entry"], "backend": case["backend"], "idkind": case["idkind"],
             "one_table_link_job": bool(case.get("one_table")),
+            "null_probability_edges": any(e[2] is None for e in case["edges"]),
+            "threshold_zero": case["thr"] is not None and case["thr"][0] in ("p", "pf") and float(case["thr"][1]) == 0,
             "threshold_kind": None if case["thr"] is None else case["thr"][0],
             "n_nodes": len(case["nodes"]), "n_edges": len(case["edges"])}
